@@ -332,3 +332,16 @@ package collection
 //@   requires size >= 1 && 0 <= offset && offset < size && 0 <= sp && sp <= size && 0 <= i && i < size - sp
 //@   ensures emod(emod(offset + sp + 1, size) + i, size) == emod(offset + sp - (size - 1 - i), size)
 //@   ensures size - 1 - i >= sp && size - 1 - i <= size - 1
+
+// drainAll (Drain): EVERY slot of the wheel is visited, in turn - also the one at tickedPos, whose tasks are the
+// ones due next; each entry of a visited slot is unlinked and, unless it was removed, handed to fn exactly once.
+//@ func (*TimingWheel).drainAll
+//@   prop C10
+//@   opaque NewTaskRunner, Schedule
+//@   requires w != nil
+//@   loop 1 invariant -1 <= rangeindex && rangeindex <= len(w.slots)
+//@   loop 1 iteration-ensures [each-slot-in-turn] calls(Front) == 1 && arg(Front, 0) == at_head(w.slots[rangeindex + 1])
+//@   loop 2 iteration-ensures [entry-unlinked-and-scheduled-unless-removed] calls(slot.Remove, at_head(e)) == 1 && calls(Next) == 1 && arg(Next, 0) == at_head(e) && e == ret(Next) && (calls(Schedule) == 1) == !unbox(at_head(e.Value), ptr(timingEntry)).removed
+//@ func (*TimingWheel).drainAll$1
+//@   prop C10
+//@   ensures [task-handed-to-fn] calls(fn, task.key, task.value) == 1
